@@ -2143,7 +2143,8 @@ func writeDescriptor(w *astikit.BitsWriter, d *Descriptor) (int, error) {
 
 	written := int(length) + 2
 
-	if d.Length == 0 {
+	// The body is written according to the computed length, whatever the (redundant) Length field holds
+	if length == 0 {
 		return written, nil
 	}
 
